@@ -774,3 +774,24 @@ fire("c06_is_ancestor_wrong_start", "C06", [(TREE, _ISANC_OLD, "        for a in
 fire("c06_is_ancestor_default_true", "C06", [(TREE, _ISANC_OLD, "        for a in self.get_ancestors(node):\n            if a is ancestor:\n                return True\n\n        return True\n")], "R-TREE-CHAIN")
 fire("c18_ancestors_include_self", "C18", [(LNODE, "        parent = self.parent\n        while parent is not None:\n            yield parent\n            parent = parent.parent\n", "        parent = self\n        while parent is not None:\n            yield parent\n            parent = parent.parent\n")], "R-LEG-IDENT")
 silent("c18_ancestors_cursor_form", "C18", [(LNODE, "        parent = self.parent\n        while parent is not None:\n            yield parent\n            parent = parent.parent\n", "        cur = self\n        while cur.parent is not None:\n            cur = cur.parent\n            yield cur\n")])
+
+# ---------------------------------------------------------------- rules of the held-out rounds 4-6 (state that outlives a call, error paths, helpers)
+_GATHER_LOOP = "        for n_info in self.dfs(prune=prune, filter=filter_fn, bottom_up=False):\n            yield cast(ASTNodeType, n_info.node)"
+fire("c05_gather_counts_then_iterates", "C05", [(NODE, _GATHER_LOOP, "        matches = self.dfs(prune=prune, filter=filter_fn, bottom_up=False)\n        if config.TRACE_LOGGING:\n            logger.debug(f\"{sum(1 for _ in matches)} matches\")\n        for n_info in matches:\n            yield cast(ASTNodeType, n_info.node)")], "R-GATHER")
+silent("c05_gather_stream_local_used_once", "C05", [(NODE, _GATHER_LOOP, "        matches = self.dfs(prune=prune, filter=filter_fn, bottom_up=False)\n        for n_info in matches:\n            yield cast(ASTNodeType, n_info.node)")])
+fire("c05_gather_yields_self", "C05", [(NODE, _GATHER_LOOP, "        if isinstance(self, obj_classes):\n            yield cast(ASTNodeType, self)\n" + _GATHER_LOOP)], "R-GATHER")
+fire("c07_findall_prunes_walk", "C07", [(XPATH, "                    for d_info in n_info.node.dfs():", "                    for d_info in n_info.node.dfs(prune=lambda d: _match_node_element(_as_root(d), el)):")], "R-XP-ANYWHERE")
+fire("c08_nested_pattern_loses_outer_context", "C08", [(PATTERN, "            ok, new_vars = submatcher.match(getattr(value, fname), local_ctx)", "            ok, new_vars = submatcher.match(getattr(value, fname), ret_vars)")], "R-CAPTURE")
+fire("c09_rule_inside_map", "C09", [(VISITOR, "        for child, f, index in node.get_child_nodes_with_field():", "        visited = map(self.visit, [c for c, _, _ in node.get_child_nodes_with_field()])\n        for child, f, index in node.get_child_nodes_with_field():")], "R-TRANSFORM-PATH")
+fire("c03_construction_registers_children", ["C03", "C10"], [(NODE, "        NODE_REGISTRY[new_id] = self\n", "        NODE_REGISTRY[new_id] = self\n        for c in self.get_child_nodes():\n            if c.id not in NODE_REGISTRY:\n                NODE_REGISTRY[c.id] = c\n")], "R-REG-OWN")
+fire("c03_exception_kept_in_local", "C03", [(NODE, "        except Exception as e:\n            if ori_n is not None:\n                NODE_REGISTRY[ori_n.id] = ori_n\n\n            raise e\n", "        except Exception as e:\n            failure = e\n            if ori_n is not None:\n                NODE_REGISTRY[ori_n.id] = ori_n\n\n            raise failure\n")], "R-REG-PAIR")
+fire("c13_literal_membership_in_frozenset", "C13", [(TYPING, "        return value in get_args(type_)", "        return value in frozenset(get_args(type_))")], "R-BOOLGUARD-TT")
+fire("c13_items_checked_with_bare_isinstance", "C13", [(TYPING, "                return all(is_instance(item, args[0]) for item in value)", "                return all(isinstance(item, args[0]) if isinstance(args[0], type) else is_instance(item, args[0]) for item in value)")], "R-BOOLGUARD-TT")
+fire("c04_multiorigin_container_not_normalised", "C04", [(ORIGIN, '        object.__setattr__(self, "origins", tuple(self.origins))\n', "")], "R-SINGLETON-RT")
+fire("c04_deserialize_pops_payload", "C04", [(NODE, '        existing_node = NODE_REGISTRY.get(value["id"])', '        value.pop("content_id", None)\n        existing_node = NODE_REGISTRY.get(value["id"])')], "R-DESER-ID")
+fire("c16_msgpack_bypasses_as_dict", "C16", [(SER, "                self.as_dict(\n                    mashumaro_dialect=MessagePackDialect,\n                    serialization_options=serialization_options,\n                ),", "                self.to_dict(dialect=MessagePackDialect) if not serialization_options else self.as_dict(\n                    mashumaro_dialect=MessagePackDialect,\n                    serialization_options=serialization_options,\n                ),")], "R-OPT-OWN")
+fire("c17_regex_wrapped_in_group", "C17", [(PATTERN, 're.compile(self._re_str)', 're.compile(f"(?:{self._re_str})")')], "R-GRAM-EXH")
+fire("c15_operand_list_extended_in_place", ["C15", "C10"], [(ORIGIN, "            new_origins.extend(origin.origins)", "            if not new_origins and isinstance(origin.origins, list):\n                new_origins = origin.origins\n            else:\n                new_origins.extend(origin.origins)")], None)
+fire("c01_child_skipped_in_digest", "C01", [(NODE, "        for c, f, i in self.get_child_nodes_with_field(sort_keys=True):\n", "        for c, f, i in self.get_child_nodes_with_field(sort_keys=True):\n            if not f.compare:\n                continue\n")], "R-DIGEST-DEP")
+fire("c06_first_ancestor_early_none", "C06", [(TREE, "        for ancestor in self.get_ancestors(node):\n            if exact_type", "        if not ancestor_classes:\n            return None\n\n        for ancestor in self.get_ancestors(node):\n            if exact_type")], "R-TREE-TYPE")
+fire("c02_eq_memo_by_ids", "C02", [(NODE, "def _eq_fn(self: ASTNode, other: ASTNode) -> bool:\n", "_EQ_MEMO: dict[tuple[str, str], bool] = {}\n\n\ndef _eq_fn(self: ASTNode, other: ASTNode) -> bool:\n    if isinstance(other, ASTNode) and (self.id, other.id) in _EQ_MEMO:\n        return _EQ_MEMO[(self.id, other.id)]\n    if isinstance(other, ASTNode):\n        _EQ_MEMO[(self.id, other.id)] = self is other\n")], "R-EQ-FORM")
